@@ -235,7 +235,7 @@ def codeData (Lx Ly Lz : Nat) (deformAxis : Option String) : CodeData :=
   let c := (XCubeCode.lattice Lx Ly Lz).toCodeData
   match deformAxis with
   | none => c
-  | some ax => c.deform fun q => (XCubeCode.getDeformation "XZZX" ax q).getD PauliMap.id
+  | some ax => c.deform fun q => (XCubeCode.getDeformation "XZZX" (some ax) q).getD PauliMap.id
 
 /-- `XCubeMatchingDecoder.__init__(code, error_model, error_rate)`; `px py pz` is
     `error_model.probability_distribution(code, error_rate)[1:]`, `cfg` the BP-OSD defaults. -/
